@@ -180,6 +180,23 @@ def _custom_constructor_grid(ctx):
         else:
             continue
         break
+    # the reader itself (`merges` of the model is a statement about the grammar): the same values put in WITHOUT the
+    # constructors' disambiguation (appended through the raw wrapper) re-read as exactly as many values as the model's
+    # reader counts - fewer than given exactly in the situations of the recorded finding
+    for q in [x for n in (2, 3) for x in itertools.product(numeric + ['s'], repeat=n)]:
+        vals = [alpha[k]() for k in q]
+        raws = [v if isinstance(v, models.RawModel) else models.EscapedString.from_value(v) if isinstance(v, str) else models.NumberExpr.from_value(v) for v in vals]
+        fl = [flags(v) for v in raws]
+        try:
+            c = models.Custom.from_value(datetime.date(2000, 1, 1), 't', [])
+            for r_ in raws:
+                c.raw_values.append(r_)
+            again = p.parse(intro.pr(c), models.Custom)
+            k = len(again.raw_values)
+        except Exception as e:
+            k = f'does not parse: {type(e).__name__}'
+        ctx.case(('custom-reader', tuple(a + ('1' if b else '0') for a, b in fl), k))
+        lock.append(('D raw ' + ','.join(a + ('1' if b else '0') for a, b in fl), f'ok read={k}', {'probe': 'custom-constructor', 'seq': list(q), 'via': 'raw-append'}))
     if lock and ctx.extra.get('model_available', True) and getattr(ctx, 'driver', None) is not None:
         outs = ctx.driver.run([l for l, _, _ in lock])
         bad = 0
